@@ -857,12 +857,14 @@ class GenFunctions(object):
 
         # Look for overloaded functions
         overloaded_functions = {}
+        instantiated_names = set()
         for function in ordered_functions:
             # if not function.wrap.c:
             #     continue
             if function.cxx_template:
                 continue
             if function.template_arguments:
+                instantiated_names.add(function.ast.name)
                 continue
             if function.have_template_args:
                 # Stuff like push_back which is in a templated class, is not an overload
@@ -882,12 +884,16 @@ class GenFunctions(object):
                     function)
 
         # look for function overload and compute function_suffix
-        for overloads in overloaded_functions.values():
+        for name, overloads in overloaded_functions.items():
             if len(overloads) > 1:
                 for i, function in enumerate(overloads):
                     function._overloaded = True
                     if not function.fmtdict.inlocal("function_suffix"):
                         function.fmtdict.function_suffix = "_{}".format(i)
+            elif name in instantiated_names:
+                # Shares its Fortran generic with the instantiations of a
+                # function template: it must be a module procedure too.
+                overloads[0]._overloaded = True
 
         # return_this
         ordered2 = []
